@@ -1,6 +1,7 @@
 import DimodProofs.GenProofs
 import DimodProofs.MultComplete
 import DimodProofs.RandomGen
+import DimodProofs.GenProofs2
 
 /-! # C17 — problem generators encode exactly the relation they document
 
@@ -118,7 +119,7 @@ theorem gates_sum_zero_iff_all_satisfied (gs : List (GateKind × List Label))
     is satisfied, ≥ 1 otherwise — for all sizes.  That the satisfied wirings are exactly `a·b = p` is
     `multiplication_circuit_zero_iff_product` below (all `n, m ≥ 2`); it is *false* when an argument has one
     bit (D36: the product bits are not named `p1, …`). -/
-theorem multiplication_circuit_partial (n m : Nat) (gs : List (GateKind × List Label)) (h : mulCircuit n m = some gs)
+theorem multiplication_circuit_gate_level (n m : Nat) (gs : List (GateKind × List Label)) (h : mulCircuit n m = some gs)
     (x : Label → Rat) (hx : ∀ v, x v ∈ [(0 : Rat), 1]) :
     (evalBag x (circuitBag gs) = 0 ↔ ∀ g ∈ gs, g.1.rel (g.2.map x) = true)
     ∧ (evalBag x (circuitBag gs) ≠ 0 → 1 ≤ evalBag x (circuitBag gs)) :=
@@ -131,7 +132,7 @@ theorem multiplication_circuit_sound (n m : Nat) (hn : 2 ≤ n) (hm : 2 ≤ m) (
     (h : mulCircuit n m = some gs) (x : Label → Rat) (hx : ∀ v, x v ∈ [(0 : Rat), 1]) :
     (evalBag x (circuitBag gs) = 0 → pVal x (n + m) = aVal x n * bVal x m)
     ∧ (pVal x (n + m) ≠ aVal x n * bVal x m → 1 ≤ evalBag x (circuitBag gs)) := by
-  obtain ⟨h1, h2⟩ := multiplication_circuit_partial n m gs h x hx
+  obtain ⟨h1, h2⟩ := multiplication_circuit_gate_level n m gs h x hx
   have hs : evalBag x (circuitBag gs) = 0 → pVal x (n + m) = aVal x n * bVal x m :=
     fun h0 => mulCircuit_sound n m hn hm gs h x (h1.1 h0)
   exact ⟨hs, fun hne => h2 (fun h0 => hne (hs h0))⟩
@@ -143,7 +144,7 @@ theorem multiplication_circuit_complete (n m : Nat) (hn : 2 ≤ n) (hm : 2 ≤ m
     ∃ x : Label → Rat, (∀ l, x l ∈ [(0 : Rat), 1]) ∧ (∀ i, x (aLabel i) = A i) ∧ (∀ j, x (bLabel j) = B j)
       ∧ evalBag x (circuitBag gs) = 0 ∧ pVal x (n + m) = wsum A n * wsum B m := by
   obtain ⟨x, hx, ha, hb, hsat⟩ := mulCircuit_complete n m hn hm gs h A B hA hB
-  have h0 : evalBag x (circuitBag gs) = 0 := (multiplication_circuit_partial n m gs h x hx).1.2 hsat
+  have h0 : evalBag x (circuitBag gs) = 0 := (multiplication_circuit_gate_level n m gs h x hx).1.2 hsat
   refine ⟨x, hx, ha, hb, h0, ?_⟩
   rw [mulCircuit_sound n m hn hm gs h x hsat]
   unfold aVal bVal
@@ -440,12 +441,215 @@ theorem multi_knapsack_feasible_iff (values weights caps : List Rat) (q : GCqm) 
         simp only [GCons.holds, evalBag_append, evalBag_linBy (f := fun i => xIJ i c'.1), evalBag, PTerm.eval]
         grind
 
-/-! ## random generators — PARTIAL: only validated over seeds by the harness (NumPy generator contract) -/
+
+/-! ## quadratic knapsacks (`quadratic_knapsack`, `quadratic_multi_knapsack`) -/
+
+/-- the profit entries used are exactly the index pairs `i < j < n` (each unordered pair of items once) -/
+theorem quadratic_knapsack_pairs (n : Nat) (p : Nat × Nat) : p ∈ upperPairs n ↔ (p.1 < p.2 ∧ p.2 < n) := upperPairs_mem n p
+
+/-- `quadratic_knapsack` objective: minus the value of the selected items minus the profit of every selected pair -/
+theorem quadratic_knapsack_objective (values weights : List Rat) (profits : List (List Rat)) (cap : Rat) (q : GCqm)
+    (h : quadraticKnapsack values weights profits cap = some q) (x : Label → Rat) :
+    evalBag x q.obj = - isumBy x xI (enumFrom values) - pairSumBy x xI (matGet profits) (upperPairs values.length) :=
+  quadraticKnapsack_obj values weights profits cap q h x
+
+/-- feasible ⇔ total selected weight within capacity -/
+theorem quadratic_knapsack_feasible_iff (values weights : List Rat) (profits : List (List Rat)) (cap : Rat) (q : GCqm)
+    (h : quadraticKnapsack values weights profits cap = some q) (x : Label → Rat) :
+    q.feasible x ↔ isumBy x xI (enumFrom weights) ≤ cap := quadraticKnapsack_feasible values weights profits cap q h x
+
+/-- refused exactly for: different numbers of values and weights, a profit matrix that is not square-symmetric, or
+    of the wrong size -/
+theorem quadratic_knapsack_refuses_iff (values weights : List Rat) (profits : List (List Rat)) (cap : Rat) :
+    quadraticKnapsack values weights profits cap = none ↔
+      (values.length ≠ weights.length ∨ isSymmetric profits = false ∨ values.length ≠ profits.length) :=
+  quadraticKnapsack_refuses values weights profits cap
+
+/-- `quadratic_multi_knapsack` objective: per knapsack `j`, minus the values placed in `j` minus the profits of the
+    pairs placed together in `j` -/
+theorem quadratic_multi_knapsack_objective (values weights : List Rat) (profits : List (List Rat)) (caps : List Rat) (q : GCqm)
+    (h : quadraticMultiKnapsack values weights profits caps = some q) (x : Label → Rat) :
+    evalBag x q.obj
+      = - (((List.range caps.length).map (fun j => isumBy x (fun i => xIJ i j) (enumFrom values))).foldr (· + ·) 0)
+        - (((List.range caps.length).map (fun j => pairSumBy x (fun i => xIJ i j) (matGet profits) (upperPairs values.length))).foldr (· + ·) 0) :=
+  quadraticMultiKnapsack_obj values weights profits caps q h x
+
+/-- `quadratic_multi_knapsack` has the constraints of `multi_knapsack`: feasible ⇔ every item in at most one
+    knapsack and every knapsack within its capacity -/
+theorem quadratic_multi_knapsack_feasible_iff (values weights : List Rat) (profits : List (List Rat)) (caps : List Rat) (q : GCqm)
+    (h : quadraticMultiKnapsack values weights profits caps = some q) (x : Label → Rat) :
+    q.feasible x ↔
+      (∀ i ∈ List.range values.length, rangeSum x (xIJ i) (List.range caps.length) ≤ 1)
+      ∧ (∀ c ∈ enumFrom caps, isumBy x (fun i => xIJ i c.1) (enumFrom weights) ≤ c.2) := by
+  obtain ⟨q', hq', hc, _⟩ := quadraticMultiKnapsack_cons values weights profits caps q h
+  rw [← multi_knapsack_feasible_iff values weights caps q' hq' x]
+  unfold GCqm.feasible
+  rw [hc]
+
+/-! ## `quadratic_assignment(distance_matrix, flow_matrix)` (with the repair of D60: reverse orientation uses `D[l][j]`) -/
+
+/-- feasible ⇔ every facility at exactly one location and every location holding exactly one facility -/
+theorem quadratic_assignment_feasible_iff (D F : List (List Rat)) (q : GCqm) (h : quadraticAssignment D F = some q) (x : Label → Rat) :
+    q.feasible x ↔
+      (∀ i ∈ List.range D.length, rangeSum x (xIJ i) (List.range D.length) = 1)
+      ∧ (∀ j ∈ List.range D.length, rangeSum x (fun i => xIJ i j) (List.range D.length) = 1) :=
+  quadraticAssignment_feasible D F q h x
+
+/-- **objective = quadratic-assignment cost**: at the 0/1 sample placing facility `i` at location `π i` (any `π` into
+    the locations; for a feasible sample `π` is a permutation) the objective is
+    `Σ_{i<k} (F[i][k]·D[π i][π k] + F[k][i]·D[π k][π i])`, i.e. `Σ_{i≠k} flow[i][k]·distance[π i][π k]` over unordered
+    pairs of facilities — for every size, symmetric or asymmetric matrices -/
+theorem quadratic_assignment_objective (D F : List (List Rat)) (q : GCqm) (h : quadraticAssignment D F = some q)
+    (π : Nat → Nat) (hπ : ∀ i, i < D.length → π i < D.length) (x : Label → Rat) (hx : assignSample π x D.length) :
+    evalBag x q.obj
+      = nsum (fun i => nsum (fun k => if i < k then
+            matGet F i k * matGet D (π i) (π k) + matGet F k i * matGet D (π k) (π i) else 0) (List.range D.length)) (List.range D.length) :=
+  quadraticAssignment_obj D F q h π hπ x hx
+
+theorem quadratic_assignment_refuses_iff (D F : List (List Rat)) :
+    quadraticAssignment D F = none ↔ (isSquare D.length D && isSquare D.length F) = false := by
+  unfold quadraticAssignment
+  simp only
+  cases hD : isSquare D.length D <;> cases hF : isSquare D.length F <;> simp
+
+/-! ## `binary_paint_shop_problem(car_sequence)` (with the repair of the multiplicity check) -/
+
+/-- accepted exactly when every car of the sequence appears exactly twice -/
+theorem paint_shop_refuses_iff (seq : List Label) : bpsp seq = none ↔ ∃ c ∈ seq, countL c seq ≠ 2 := by
+  unfold bpsp
+  split
+  · rename_i h
+    refine ⟨fun _ => ?_, fun _ => rfl⟩
+    simpa [List.any_eq_true] using h
+  · rename_i h
+    refine ⟨fun hh => by simp at hh, fun hex => ?_⟩
+    exfalso; apply h
+    simpa [List.any_eq_true] using hex
+
+/-- **the Ising energy is the paint-shop objective up to a constant**: for every accepted sequence and every spin
+    sample, `2 × (number of colour changes of the colouring sample_to_coloring reads off the sample)
+    = (L − 1) + E(s) + #(car directly followed by itself)` -/
+theorem paint_shop_energy_counts_changes (seq : List Label) (bag : List (PTerm Label)) (h : bpsp seq = some bag)
+    (x : Label → Rat) (hx : ∀ v, x v * x v = 1) :
+    twiceChanges x [] seq = (((seq.length - 1 : Nat)) : Rat) + evalBag x bag + ((sameAdj seq : Nat) : Rat) := by
+  unfold bpsp at h
+  split at h
+  · simp at h
+  · rename_i hall
+    simp only [Option.some.injEq] at h; subst h
+    apply bpspGo_changes x hx seq []
+    intro c
+    have h0 : countL c [] = 0 := rfl
+    rw [h0]
+    by_cases hm : c ∈ seq
+    · have : ¬ (countL c seq ≠ 2) := by
+        intro hne
+        apply hall
+        simp only [List.any_eq_true, decide_eq_true_eq]
+        exact ⟨c, hm, hne⟩
+      omega
+    · rw [countL_zero_of_not_mem c seq hm]; omega
+
+/-! ## kMC-SAT (`random_kmcsat`, `random_nae3sat`, `random_2in4sat`): the model as a function of the drawn clauses -/
+
+/-- the energy is the sum of the clause energies (the variables themselves carry no bias) -/
+theorem kmcsat_energy (labels : List Label) (k : Nat) (clauses : List Clause) (bag : List (PTerm Label))
+    (h : kmcsat labels k clauses = some bag) (x : Label → Rat) :
+    evalBag x bag = bagSum x (clauseBag (fun i => labels.getD i (.int 0))) clauses := kmcsat_eval labels k clauses bag h x
+
+/-- one clause at a spin sample: `2·E = (2t − k)² − k`, `t` = number of true literals (`sign·s = +1`) -/
+theorem kmcsat_clause_energy (x : Label → Rat) (hx : ∀ v, x v = 1 ∨ x v = -1) (lab : Nat → Label) (c : Clause) (hc : ClauseOK c) :
+    2 * evalBag x (clauseBag lab c)
+      = ((((2 * (litTrue x lab c : Int) - (c.length : Int)) * (2 * (litTrue x lab c : Int) - (c.length : Int)) - (c.length : Int) : Int)) : Rat) :=
+  clause_energy_count x hx lab c hc
+
+/-- **documented relation, every `k`**: each clause contributes at least `−(k // 2)`, and exactly that iff it is
+    satisfied (true and false literals differ in number by at most one: a maximum cut of the clause) -/
+theorem kmcsat_clause_bound (x : Label → Rat) (hx : ∀ v, x v = 1 ∨ x v = -1) (lab : Nat → Label) (c : Clause) (hc : ClauseOK c) :
+    -(((c.length / 2 : Nat)) : Rat) ≤ evalBag x (clauseBag lab c)
+    ∧ (evalBag x (clauseBag lab c) = -(((c.length / 2 : Nat)) : Rat)
+        ↔ (c.length ≤ 2 * litTrue x lab c + 1 ∧ 2 * litTrue x lab c ≤ c.length + 1)) := kmc_clause_bound x hx lab c hc
+
+/-- `random_nae3sat`: a clause has energy `−1` iff its three literals are not all equal, `+3` otherwise -/
+theorem nae3sat_clause_energy (x : Label → Rat) (hx : ∀ v, x v = 1 ∨ x v = -1) (lab : Nat → Label) (c : Clause) (hc : ClauseOK c) (hk : c.length = 3) :
+    ((0 < litTrue x lab c ∧ litTrue x lab c < 3) → evalBag x (clauseBag lab c) = -1)
+    ∧ ((litTrue x lab c = 0 ∨ litTrue x lab c = 3) → evalBag x (clauseBag lab c) = 3) := nae3_clause x hx lab c hc hk
+
+/-- `random_2in4sat`: a clause has energy `−2` iff exactly two of its four literals are true, `≥ 0` otherwise -/
+theorem twoin4sat_clause_energy (x : Label → Rat) (hx : ∀ v, x v = 1 ∨ x v = -1) (lab : Nat → Label) (c : Clause) (hc : ClauseOK c) (hk : c.length = 4) :
+    (litTrue x lab c = 2 → evalBag x (clauseBag lab c) = -2)
+    ∧ (litTrue x lab c ≠ 2 → 0 ≤ evalBag x (clauseBag lab c)) := twoin4_clause x hx lab c hc hk
+
+theorem kmcsat_refuses_iff (labels : List Label) (k : Nat) (clauses : List Clause) :
+    kmcsat labels k clauses = none ↔ (labels.length < 1 ∨ k < 1 ∨ labels.length < k) := by
+  unfold kmcsat; split <;> simp_all
+
+/-! ## `magic_square(size, power)` as coded -/
+
+/-- every line constraint (`row_i`, `col_i`, `diagonal`, `antidiagonal`) is `Σ cell^power − sum == 0`, and the
+    `uniqueness` constraint is `Σ_{pairs of different cells} (a − b)² ≥ (size⁴ − size²)/2`: a sample is feasible iff
+    all rows, columns and both diagonals have (power-)sum `x(sum)` and the squared differences add up to at least the
+    number of cell pairs.  NOTE: the last condition is necessary for pairwise different entries (each pair then
+    contributes ≥ 1) but does not imply it — see `magic_square_uniqueness_not_forced_witness`. -/
+theorem magic_square_feasible_iff (n power : Nat) (q : GCqm) (h : magicSquare n power = some q) (x : Label → Rat) :
+    q.feasible x ↔
+      ((∀ i ∈ List.range n, cellSum x power ((List.range n).map (fun j => (i, j))) = x msSum
+                          ∧ cellSum x power ((List.range n).map (fun j => (j, i))) = x msSum)
+       ∧ cellSum x power ((List.range n).map (fun i => (i, i))) = x msSum
+       ∧ cellSum x power ((List.range n).map (fun i => (i, n - 1 - i))) = x msSum
+       ∧ (((n * n * n * n - n * n : Nat)) : Rat) / 2 ≤ sqDiffSum x (msPairs n)) := by
+  unfold magicSquare at h
+  split at h
+  · simp at h
+  · simp only [Option.some.injEq] at h; subst h
+    simp only [GCqm.feasible, List.mem_append, List.mem_flatMap, List.mem_cons, List.not_mem_nil, or_false]
+    constructor
+    · intro hf
+      refine ⟨fun i hi => ⟨?_, ?_⟩, ?_, ?_, ?_⟩
+      · have := hf _ (Or.inl ⟨i, hi, Or.inl rfl⟩)
+        simp only [GCons.holds, msLine_eval] at this; grind
+      · have := hf _ (Or.inl ⟨i, hi, Or.inr rfl⟩)
+        simp only [GCons.holds, msLine_eval] at this; grind
+      · have := hf _ (Or.inr (Or.inl rfl))
+        simp only [GCons.holds, msLine_eval] at this; grind
+      · have := hf _ (Or.inr (Or.inr (Or.inl rfl)))
+        simp only [GCons.holds, msLine_eval] at this; grind
+      · have := hf _ (Or.inr (Or.inr (Or.inr rfl)))
+        simp only [GCons.holds, msUnique_eval] at this; exact this
+    · rintro ⟨hl, hd, ha, hu⟩ c hc
+      rcases hc with ⟨i, hi, rfl | rfl⟩ | rfl | rfl | rfl
+      · simp only [GCons.holds, msLine_eval]; have := (hl i hi).1; grind
+      · simp only [GCons.holds, msLine_eval]; have := (hl i hi).2; grind
+      · simp only [GCons.holds, msLine_eval]; grind
+      · simp only [GCons.holds, msLine_eval]; grind
+      · simp only [GCons.holds, msUnique_eval]; exact hu
+
+/-- the uniqueness pairs are every unordered pair of different cells exactly once -/
+theorem magic_square_pairs (n : Nat) (p : (Nat × Nat) × (Nat × Nat)) :
+    p ∈ msPairs n ↔ (p.1.1 < n ∧ p.1.2 < n ∧ p.2.1 < n ∧ p.2.2 < n ∧ ((p.2.1 > p.1.1 ∧ p.2.2 = p.1.2) ∨ p.2.2 > p.1.2)) := msPairs_mem n p
+
+/-- the single quadratic `uniqueness` constraint does not force different entries: the 3×3 square
+    `7 1 7 / 5 5 5 / 3 9 3` with `sum = 15` satisfies every constraint of `magic_square(3)` -/
+theorem magic_square_uniqueness_not_forced_witness :
+    ∃ q, magicSquare 3 1 = some q ∧
+      q.feasible (fun l => if l = msVar 0 0 then 7 else if l = msVar 0 1 then 1 else if l = msVar 0 2 then 7
+                      else if l = msVar 1 0 then 5 else if l = msVar 1 1 then 5 else if l = msVar 1 2 then 5
+                      else if l = msVar 2 0 then 3 else if l = msVar 2 1 then 9 else if l = msVar 2 2 then 3
+                      else if l = msSum then 15 else 0) := by
+  refine ⟨_, rfl, ?_⟩
+  rw [magic_square_feasible_iff 3 1 _ rfl]
+  decide +kernel
 
 /-! ## non-vacuity -/
 
 example : gate .and [.str "a", .str "b", .str "c"] 2 ≠ none := by decide +kernel
 example : (mulCircuit 2 2).map List.length = some 6 := by decide +kernel
 example : Gen.combinations [.int 0, .int 1, .int 2] 1 1 .binary ≠ none := by decide +kernel
+example : (quadraticKnapsack [1, 2] [1, 1] [[0, 3], [3, 0]] 1).map (fun q => q.obj.length) = some 5 := by decide +kernel
+example : (kmcsat [.int 0, .int 1, .int 2] 3 [[(0, 1), (2, -1), (1, 1)]]).map List.length = some 6 := by decide +kernel
+example : (quadraticAssignment [[0, 1], [2, 0]] [[0, 3], [5, 0]]).map (fun q => q.cons.length) = some 4 := by decide +kernel
+example : (bpsp [.str "a", .str "b", .str "a", .str "b"]).map List.length = some 3 := by decide +kernel
+example : bpsp [.str "a", .str "a", .str "a", .str "b"] = none := by decide +kernel
+example : (magicSquare 2 2).map (fun q => q.cons.length) = some 7 := by decide +kernel
 
 end C17
